@@ -267,11 +267,12 @@ func init() {
 }
 
 // c15RefusedStartRemovesDir: in (*Runtime).InvokePipeline (martian/core/runtime.go) the error
-// branch right after the call of `instantiatePipeline` — which is where a start that loses the
-// race for the lock returns PipestanceLockedError — removes the pipestance directory.  `true`
-// when `os.RemoveAll` is a statement of that branch itself (unconditional: the directory of the
-// mrp that owns the pipestance is deleted); `false` when it only occurs under a further condition
-// (the repaired code removes it unless the error is PipestanceLockedError) or not at all.
+// branch right after the call of `instantiatePipeline` — where a start arrives that lost the
+// race for the lock (PipestanceLockedError) or failed even earlier (parse / compile / call-graph
+// error) — removes the pipestance directory although this call does not own it.  `false` only
+// when every `os.RemoveAll` of that branch sits under a condition `<p> != nil`, `<p>` being the
+// pipestance returned by instantiatePipeline (non-nil exactly when this call took the lock);
+// `true` when an `os.RemoveAll` is unconditional or guarded by anything else.
 func init() {
 	addFact(fact{
 		name:   "c15RefusedStartRemovesDir",
@@ -298,10 +299,9 @@ func init() {
 				sel, ok := ce.Fun.(*ast.SelectorExpr)
 				return ok && sel.Sel.Name == "RemoveAll"
 			}
-			// the statement after `… := self.instantiatePipeline(…)`
 			for i, st := range fd.Body.List {
 				as, ok := st.(*ast.AssignStmt)
-				if !ok || len(as.Rhs) != 1 {
+				if !ok || len(as.Rhs) != 1 || len(as.Lhs) != 4 {
 					continue
 				}
 				ce, ok := as.Rhs[0].(*ast.CallExpr)
@@ -312,27 +312,45 @@ func init() {
 				if !ok || sel.Sel.Name != "instantiatePipeline" {
 					continue
 				}
-				if i+1 >= len(fd.Body.List) {
+				pid, ok := as.Lhs[2].(*ast.Ident)
+				if !ok || i+1 >= len(fd.Body.List) {
 					break
 				}
 				is, ok := fd.Body.List[i+1].(*ast.IfStmt)
 				if !ok {
 					break
 				}
-				direct, nested := false, false
-				for _, b := range is.Body.List {
-					if isRemoveAll(b) {
-						direct = true
-					}
-					ast.Inspect(b, func(n ast.Node) bool {
-						if s, ok := n.(ast.Stmt); ok && s != b && isRemoveAll(s) {
-							nested = true
+				// guardedByOwner(stmt): stmt is `if <pid> != nil { ... }` (else branches are not the guard)
+				unguarded, guarded := 0, 0
+				var walk func(b *ast.BlockStmt, owned bool)
+				walk = func(b *ast.BlockStmt, owned bool) {
+					for _, x := range b.List {
+						if isRemoveAll(x) {
+							if owned {
+								guarded++
+							} else {
+								unguarded++
+							}
 						}
-						return true
-					})
+						if inner, ok := x.(*ast.IfStmt); ok {
+							own := false
+							if be, ok := inner.Cond.(*ast.BinaryExpr); ok && be.Op.String() == "!=" {
+								if id, ok := be.X.(*ast.Ident); ok && id.Name == pid.Name {
+									if n, ok := be.Y.(*ast.Ident); ok && n.Name == "nil" {
+										own = true
+									}
+								}
+							}
+							walk(inner.Body, owned || own)
+							if eb, ok := inner.Else.(*ast.BlockStmt); ok {
+								walk(eb, owned)
+							}
+						}
+					}
 				}
-				js := map[string]interface{}{"remove_all_unconditional": direct, "remove_all_conditional": nested}
-				if direct {
+				walk(is.Body, false)
+				js := map[string]interface{}{"remove_all_not_under_ownership_guard": unguarded, "remove_all_under_ownership_guard": guarded}
+				if unguarded > 0 {
 					return "true", js, nil
 				}
 				return "false", js, nil
